@@ -10,7 +10,7 @@ from . import exprharness as X
 from .chrun import Cond, run_conditions, to_obligations, concrete_reach
 
 HEAD = '''# generated harness module (E1, prophyc units) -- no message-formatting stub: str(int) is semantic in the parser
-from vf import pyharness as H, exprharness as X, compharness as K, acceptharness as A
+from vf import pyharness as H, exprharness as X, compharness as K, acceptharness as A, robustharness as RB
 H.setup(formatting_stub=True, int_str=True)
 X.parser()
 A.env()
@@ -22,11 +22,17 @@ def explain(fn, args, kwargs):
     if fam == 'tot':
         return X.explain(fn, lambda: globals()[fn](*args), TABLE)
     exc = None
+    what = None
     try:
         globals()[fn](*args)
     except Exception as e:   # noqa
         exc = type(e).__name__
-    return dict(check=fam, kind=('exception:' + exc) if exc else 'assertion')
+        if exc == 'Internal':
+            what = str(e)
+    d = dict(check=fam, kind=('exception:' + exc) if exc else 'assertion')
+    if what:
+        d['what'] = what
+    return d
 
 '''
 
@@ -110,6 +116,22 @@ def run(tier):
     conds.append(Cond(path, 'outdir__0', 'output-directory-contract',
                       dict(check='options.readable_dir accepts only what generators.base._make_path accepts', symbolic='what the file system answers for the path (exists, is a directory)'),
                       sample_args=[True, True]))
+    # 1d. malformed isar elements (every subset of the attributes present) and bad patch lines end in the designed channel
+    from . import robustharness as RB
+    for k, el in enumerate(RB.ELEMENTS):
+        ps = ['p%d' % i for i in range(8)]
+        body.append('def isar__%d(%s) -> bool:\n    """\n    post: _\n    """\n    return RB.isar_element_total(%d, %s)\n\n' % (k, ', '.join('%s: bool' % p for p in ps), k, ', '.join(ps)))
+        conds.append(Cond(path, 'isar__%d' % k, 'isar-element-total/' + el,
+                          dict(check='isar element builders are total', element=el, symbolic='presence of every attribute of the element, its member and its dimension (8 bits)'),
+                          sample_args=[True] * 8))
+    body.append('def patchline__0(nwords: int, action_sel: int, params_sel: int, target_sel: int) -> bool:\n    """\n'
+                '    pre: 0 <= nwords <= 2 and 0 <= action_sel < %d and 0 <= params_sel < %d and 0 <= target_sel <= 2\n    post: _\n    """\n'
+                '    return RB.patch_line_total(nwords, action_sel, params_sel, target_sel)\n\n' % (len(RB.ACTIONS), len(RB.PARAMS)))
+    conds.append(Cond(path, 'patchline__0', 'patch-line-total',
+                      dict(check='patch lines are total', symbolic='number of words on the line, action keyword, parameter list, target definition'), sample_args=[2, 0, 2, 0]))
+    body.append('def xmltext__0(sel: int) -> bool:\n    """\n    pre: 0 <= sel < %d\n    post: _\n    """\n    return RB.xml_text_total(sel)\n\n' % len(RB.XML_TEXTS))
+    conds.append(Cond(path, 'xmltext__0', 'malformed-xml-text', dict(check='malformed XML text ends in the designed channel', symbolic='selector over %d concrete documents (expat is C code)' % len(RB.XML_TEXTS)),
+                      sample_args=[len(RB.XML_TEXTS) - 1]))
     # 2. expression actions total
     for idx, (e, pos) in enumerate(tab):
         # array-size / enumerator / discriminator positions hash or format the value (CrossHair realises it): small range there
